@@ -360,7 +360,12 @@ func cmdCheck(args []string) int {
 		fmt.Printf("  clause %-40s evaluated %d\n", k, clauses[k])
 	}
 	if len(violations) > 0 {
-		for _, v := range violations {
+		sort.SliceStable(violations, func(i, j int) bool { return len(violations[i].Path) < len(violations[j].Path) })
+		for i, v := range violations {
+			if i >= 6 {
+				fmt.Printf("VIOLATION property=%s replay=%s\n", id, v.File)
+				continue
+			}
 			fmt.Printf("VIOLATION property=%s replay=%s\n", id, v.File)
 			fmt.Printf("  clause=%s tags=%v site=%s\n  detail=%s\n  trace=%v\n", v.Clause, v.Tags, v.Site, firstLines(v.Detail, 12), v.Trace)
 		}
